@@ -34,7 +34,7 @@ TARGETS = {      # file -> (crate dir, cargo package, checks in the order they a
     "format/src/cformat.rs": ("format", "rustpython-format", ["C19"]),
 }
 OPS = [
-    (r"<=", "<"), (r">=", ">"), (r"(?<![<=>!-])<(?![<=])(?= )", "<="), (r"(?<![=>-])>(?![>=])(?= )", ">="), (r"==", "!="), (r"!=", "=="),
+    (r"<=", "<"), (r">=", ">"), (r"(?<= )<(?= )", "<="), (r"(?<= )>(?= )", ">="), (r"==", "!="), (r"!=", "=="),
     (r"&&", "||"), (r"\|\|", "&&"), (r"\btrue\b", "false"), (r"\bfalse\b", "true"), (r"\.is_some\(\)", ".is_none()"),
     (r"\.is_none\(\)", ".is_some()"), (r"\bif !", "if "), (r"\+= 1\b", "+= 2"), (r" \+ 1\b", " + 2"), (r" - 1\b", " - 0"),
     (r"\.\.=", ".."), (r"\bSome\((\w+)\) =>", r"Some(\1) if false =>"), (r"\.min\(", ".max("), (r"\.max\(", ".min("),
@@ -135,6 +135,12 @@ def run_one(w, cand):
                 res["by"] = c
                 res["input"] = "no-failing-input-found" not in out
                 return res
+        # a survivor must also pass the PINNED suite (workspace-wide, feature-unified), not only its crate's own tests
+        rc, out = sh("cargo test --workspace --no-fail-fast --offline 2>&1", cwd=f"{w}/repo", env=env, timeout=2400)
+        if rc != 0:
+            res["status"] = "killed-by-existing-tests"
+            res["by"] = "workspace suite"
+            return res
         res["status"] = "SURVIVED"
         return res
     finally:
